@@ -250,7 +250,16 @@ class BoolEval(object):
             return
         if isinstance(st, ast.Raise):
             raise Undecided('%s: raises on the evaluated path (%s)' % (func.construct, unparse(st)))
-        if isinstance(st, (ast.Pass, ast.Import, ast.ImportFrom, ast.Assert)):
+        if isinstance(st, ast.ImportFrom):
+            base = func.module._abs(st.level, st.module)
+            for a in st.names:
+                q = self.index.canonical(base + '.' + a.name)
+                try:
+                    env[a.asname or a.name] = self._global(q, st, func)
+                except Undecided:
+                    pass
+            return
+        if isinstance(st, (ast.Pass, ast.Import, ast.Assert)):
             return
         raise Undecided('%s: unsupported statement %s' % (func.construct, type(st).__name__))
 
@@ -342,6 +351,11 @@ class BoolEval(object):
             return self.binop(AST_BIN[type(e.op)][0], a, b, func)
         if isinstance(e, ast.UnaryOp) and isinstance(e.op, ast.Invert):
             return self.unop(self.eval(e.operand, env, func), func)
+        if isinstance(e, ast.UnaryOp) and isinstance(e.op, ast.USub):
+            v = self.eval(e.operand, env, func)
+            if isinstance(v, int):
+                return -v
+            raise Undecided('%s: unary minus on %r' % (func.construct, v))
         if isinstance(e, (ast.List, ast.Tuple)):
             out = []
             for x in e.elts:
